@@ -362,10 +362,43 @@ def ctor_keeps_values(ctx, rule, only=None):
     ctx.floor('%s constructor attributes of the message classes' % rule, n, 2 * len(only) if only else 40, rule=rule)
 
 
+def nonce_lengths(ctx, rule):
+    """RFC 7296 3.9 / 2.10: the nonce data is between 16 and 256 octets, inclusive.  PayloadNONCE accepts exactly that window: the condition
+    under which its constructor refuses a nonce it is given, evaluated for the lengths around both bounds (however the window is
+    spelt: two comparisons, a chain, `len(nonce) not in range(a, b)`, a table)"""
+    fi = ctx.func('message.PayloadNONCE.__init__')
+    S = ctx.sval(fi)
+    p = fi.call_params()[0]
+    ln = strip_ids(S.expr('len(%s)' % p))
+    out = {}
+    for L in (0, 15, 16, 17, 255, 256, 257, 1000):
+        def leaf(t, L=L):
+            t = strip_ids(t)
+            if t == ln:
+                return L
+            if t == ('param', p):
+                return b'x' * L
+            raise tq.NoValue()
+        refused = None
+        try:
+            hits = []
+            for pc, rt, _ in S.raises:
+                hits.append(all(bool(tq.teval(a[0], leaf)) == a[1] for a in strip_ids(tuple(pc))))
+            refused = any(hits)
+        except (tq.NoValue, Exception):
+            refused = None
+        out[L] = refused
+    want = {0: True, 15: True, 16: False, 17: False, 255: False, 256: False, 257: True, 1000: True}
+    ctx.check(out == want and all(tq.is_call(rt, 'new message.InvalidSyntax') for _, rt, _ in S.raises), rule,
+              'a nonce is accepted when it has 16 to 256 octets (both inclusive) and refused as InvalidSyntax otherwise', key=(rule, 'nonce-lengths'),
+              site=ctx.site(fi, fi.node), detail={'length -> refused': {str(k): v for k, v in out.items()}})
+
+
 def run(ctx):
     prog, res = ctx.prog, ctx.res
     esc = ctx.escape('engine', kills=common.engine_kills(ctx))
     mod = prog.module('message')
+    nonce_lengths(ctx, 'W1')
 
     # ---------------------------------------------------------------- W1 fixed parts
     for title, cname, dfn, di, efn, ei, fields in STRUCTS:
